@@ -4,6 +4,7 @@ CONSTANTS t1, t2, t3, t4, r1, r2, r3
 \* quick: two successive deploys {t1} -> {t2,t3}, two requests
 MCCmds   == <<"deploy", "deploy">>
 MCGroup  == <<{t1}, {t2, t3}>>
+MCGroupS == <<{t1}, {t2}>>
 \* thorough: three successive deploys
 MCCmds3  == <<"deploy", "deploy", "deploy">>
 MCGroup3 == <<{t1}, {t2, t3}, {t4}>>
